@@ -1,4 +1,6 @@
 fn main() {
+    // `--cfg litep2p_verif` guards the verification hooks (off by default).
+    println!("cargo::rustc-check-cfg=cfg(litep2p_verif)");
     let mut config = prost_build::Config::new();
     // Configure Prost to add #[derive(Serialize, Deserialize)] to all generated structs
     config.type_attribute(
